@@ -34,6 +34,21 @@ Definition cgc {K A} (now : Z) (c : cache K A) : cache K A :=
            | None => None
            end.
 
+(* ClearExpired in two phases, as the code does it: under the read lock the expired keys are
+   collected ([marked]); later, under the write lock, they are deleted.  [recheck] says whether
+   the second phase deletes only items that are still expired (the repaired code) or every
+   marked key (the code at the pinned commit).  A Set may happen between the two phases. *)
+Definition gc_mark {K A} (now : Z) (c : cache K A) : K -> bool :=
+  fun k => match c k with Some (_, exp) => negb (live now exp) | None => false end.
+Definition gc_sweep {K A} (recheck : bool) (now : Z) (marked : K -> bool) (c : cache K A) : cache K A :=
+  fun k => if marked k
+           then (if recheck then match c k with
+                                 | Some (v, exp) => if live now exp then Some (v, exp) else None
+                                 | None => None
+                                 end
+                 else None)
+           else c k.
+
 (* ------------------------------------------------------------------ coordinator state *)
 
 Record event := mkEv { ev_w : N;       (* interned WorkID *)
